@@ -70,13 +70,15 @@ def cases(tier, seed):
                         mandatory = b in ("periodic", "bloch") and g == "nonuniform" and m == "diag" and sd == seed  # the wrap-metric configuration
                         if tier == "quick" and not mandatory and (si + bi + 2 * gi + 3 * mi) % 11 != 0:
                             continue
-                        # thorough: every combination on 3x3x3, every 3rd on 4x3x2, every 12th on the larger shapes, and a
+                        # thorough: every 3rd combination on 3x3x3 and on 4x3x2, every 24th on the larger shapes, and a
                         # thinned second/third seed (measured: ~15 s per case, Bloch+lossy up to 3 min)
                         if tier != "quick" and not mandatory:
                             h = bi + 2 * gi + 3 * mi + sd
+                            if shape == (3, 3, 3) and h % 3 != 0:
+                                continue
                             if shape == (4, 3, 2) and h % 3 != 0:
                                 continue
-                            if shape in ((5, 4, 3), (2, 5, 4)) and h % 12 != 0:
+                            if shape in ((5, 4, 3), (2, 5, 4)) and h % 24 != 0:
                                 continue
                             if sd != seed and h % 16 != 0:
                                 continue
